@@ -284,6 +284,7 @@ def run_library(spec, acc, api, con):
         data_functions_report_failures(acc, api)
         script_function_failures(acc, api)
         system_fetch_failures(acc, api)
+        odd_include_urls(acc, api)
 
 
 DOCUMENTED_FAILURE = {'arrayIndexOf': -1, 'arrayLastIndexOf': -1, 'arrayLength': 0, 'objectHas': False, 'stringIndexOf': -1,
@@ -499,6 +500,49 @@ def system_fetch_failures(acc, api):
                         acc.violation('debug-log-count', f'{call}: {nfail} failed requests, {len(lines)} report lines {lines[:3]!r:.300}', case)
                     elif not debug and lines:
                         acc.violation('logged-without-debug', f'{call}: {lines[:2]}', case)
+
+
+def odd_include_urls(acc, api):
+    """Include statements with unusual but parseable locations (empty, blank, '/', '.', '..', '#', ':' ...), plain and system form,
+    at top level and inside an included file (where the run-time's own relative resolution is the urlFn), with and without a
+    system prefix / fetch function: the run ends with a value or the documented error types - nothing else escapes."""
+    import bare_script
+    rt_err, p_err = api[2], api[3]
+    urls = ['', ' ', '/', '.', '..', '../', '#', ':', '://', 'http:', 'a b', '?x', '/.', './', '//', '\\', 'é', '%', 'a/../../..', 'C:\\x']
+    for u in urls:
+        for form in ("include '{u}'", 'include <{u}>'):
+            if form.startswith("include '") and "'" in u:
+                continue
+            if form.endswith('>') and '>' in u:
+                continue
+            stmt = form.replace('{u}', u)
+            for where in ('top', 'nested'):
+                for prefix in (None, '/sys/', 'https://cdn.example/lib/', ''):
+                    for fetch_kind in ('misses', 'raises', 'absent', 'answers'):
+                        files = {'inner.bare': stmt}
+
+                        def fetch(req, fetch_kind=fetch_kind):
+                            if req['url'].endswith('inner.bare') and req['url'] in ('inner.bare', 'dir/inner.bare'):
+                                return stmt
+                            if fetch_kind == 'raises':
+                                raise OSError('no such file')
+                            return "zz = 1" if fetch_kind == 'answers' else None
+                        o = {'globals': {}, 'logFn': None}
+                        if fetch_kind != 'absent':
+                            o['fetchFn'] = fetch
+                        if prefix is not None:
+                            o['systemPrefix'] = prefix
+                        text = stmt if where == 'top' else "include 'dir/inner.bare'"
+                        case = {'text': text, 'inner': stmt, 'prefix': prefix, 'fetch': fetch_kind}
+                        acc.case(('odd-include', stmt, where, prefix, fetch_kind), True)
+                        try:
+                            bare_script.execute_script(bare_script.parse_script(text), o)
+                        except (rt_err, p_err):
+                            pass
+                        except Exception as exc:  # pylint: disable=broad-except
+                            acc.violation('host-exception-escaped', f'{stmt!r} ({where}, systemPrefix={prefix!r}, fetchFn {fetch_kind}): {type(exc).__name__}: {exc}', case)
+                            return
+                        acc.count('odd_include_url_runs')
 
 
 def data_functions_report_failures(acc, api):
